@@ -3,6 +3,8 @@
 """
 
 import time
+import math
+import decimal
 import sys
 from xml.etree import ElementTree
 import binascii
@@ -222,14 +224,30 @@ class Real(Type):
 
     def encode(self, data):
         data = float(data)
-        exponent = 0
-
-        while abs(data) >= 10:
-            data /= 10
-            exponent += 1
-
         element = ElementTree.Element(self.name)
-        element.text = '{}E{}'.format(data, exponent)
+
+        if data == float('inf'):
+            element.text = 'INF'
+        elif data == float('-inf'):
+            element.text = '-INF'
+        elif math.isnan(data):
+            element.text = 'NaN'
+        else:
+            # Exact decimal arithmetic on the shortest representation
+            # that identifies the number.
+            mantissa = decimal.Decimal(repr(data))
+            exponent = 0
+
+            if abs(mantissa) >= 10:
+                exponent = mantissa.adjusted()
+                mantissa = mantissa.scaleb(-exponent).normalize()
+
+            mantissa = '{:f}'.format(mantissa)
+
+            if '.' not in mantissa:
+                mantissa += '.0'
+
+            element.text = '{}E{}'.format(mantissa, exponent)
 
         return element
 
